@@ -49,9 +49,16 @@ def coq_case(p1, p2, tgc, deltas=False, frac=None, mode=None, coq1=None,
             c1, f1 = certfind.expr_cert(p1, tgc, True, frac, mode)
             c2, f2 = certfind.expr_cert(p2, tgc, True, frac, mode)
         vs = certfind.eps_vars([p1, p2], frac)
+        # a renaming may move an orbital-energy index to any pool name up to
+        # the number of indices of its sort in a term
         sorts = {}
-        for v in vs:
-            sorts[v.sort] = sorts.get(v.sort, 0) + 1
+        for t in list(p1) + list(p2):
+            cnt = {}
+            for x in set(adcio.term_indices(t)):
+                cnt[x.sort] = cnt.get(x.sort, 0) + 1
+            for so, n in cnt.items():
+                sorts[so] = max(sorts.get(so, 0), n)
+        sorts = {v.sort: sorts.get(v.sort, 1) for v in vs}
         allv = list(vs)
         for sort, n in sorts.items():
             for q in certfind.pool_names(sort, set(), n + len(tgc) + 2):
